@@ -61,38 +61,43 @@ Proof.
   intros (Hw & Hc0 & Hp & Hdl & Hfit & Hs & Hd & Hpr). unfold seg_tcp_csum, seg_csum_len.
   rewrite Hdl, Hpr. rewrite takeN_app_exact_nil.
   unfold wrap16. rewrite (N.mod_small (len (ts_payload s) + 20)) by lia.
-  change csum_partial with wsum. rewrite pseudo_same.
+  rewrite !csum_partial_red. rewrite pseudo_same.
   rewrite <- (app_nil_r (pseudo_hdr _ _ _ _)), wsum_pseudo by lia.
   rewrite <- (app_nil_r (tcp_ser _)), wsum_tcp_ser by (try exact Hw; rewrite Hc0; lia).
   cbn [wsum]. rewrite !N.add_0_r.
   pose proof (wsum_bound_len _ Hp ltac:(lia)) as Bp.
-  assert (Bph : pseudo_words (ip_src (ts_ip s)) (ip_dst (ts_ip s)) 6 (len (ts_payload s) + 20) <= 6 * 65535).
-  { unfold pseudo_words. lia. }
-  assert (Bth : tcp_words (ts_tcp s) <= 10 * 65535).
-  { destruct Hw as (H1 & H2 & H3 & H4 & H5 & H6 & H7). unfold tcp_words. rewrite Hc0. lia. }
+  set (A := pseudo_words (ip_src (ts_ip s)) (ip_dst (ts_ip s)) 6 (len (ts_payload s) + 20)).
+  set (B := tcp_words (ts_tcp s)). set (C := wsum (ts_payload s)) in *.
+  assert (Bph : A <= 6 * 65535) by (unfold A, pseudo_words; lia).
+  assert (Bth : B <= 10 * 65535).
+  { destruct Hw as (H1 & H2 & H3 & H4 & H5 & H6 & H7). unfold B, tcp_words. rewrite Hc0. lia. }
+  pose proof (red_bound A ltac:(lia)) as RA. pose proof (red_bound B ltac:(lia)) as RB. pose proof (red_bound C ltac:(lia)) as RC.
   unfold cadd, two32.
-  destruct (_ + _ <? 4294967296) eqn:E1; [|lia]. cbn [obind].
-  destruct (_ + _ + _ <? 4294967296) eqn:E2; [|lia]. cbn [obind].
+  destruct (red A + red B <? 4294967296) eqn:E1; [|lia]. cbn [obind].
+  destruct (red A + red B + red C <? 4294967296) eqn:E2; [|lia]. cbn [obind].
   intros E. apply Ok_inj in E. subst s'.
   cbn [ts_ip ts_with_tcp ts_payload]. split; [|split; reflexivity].
   unfold tcp_ok, seg_tcpseg. cbn [ts_tcp ts_with_tcp ts_payload].
-  assert (L : length (tcp_ser (th_set_csum (ts_tcp s) (csum_fold (pseudo_words (ip_src (ts_ip s)) (ip_dst (ts_ip s)) 6 (len (ts_payload s) + 20) + tcp_words (ts_tcp s) + wsum (ts_payload s)))) ++ ts_payload s) = (20 + length (ts_payload s))%nat).
+  set (c := csum_fold (red A + red B + red C)).
+  assert (L : length (tcp_ser (th_set_csum (ts_tcp s) c) ++ ts_payload s) = (20 + length (ts_payload s))%nat).
   { rewrite app_length. reflexivity. }
   rewrite L. replace (Nat.leb 20 (20 + length (ts_payload s))) with true by (symmetry; apply Nat.leb_le; lia).
   cbn [andb].
-  set (S := pseudo_words (ip_src (ts_ip s)) (ip_dst (ts_ip s)) 6 (len (ts_payload s) + 20) + tcp_words (ts_tcp s) + wsum (ts_payload s)).
-  eapply (csum_set_then_verify (pseudo_hdr (ip_src (ts_ip s)) (ip_dst (ts_ip s)) 6 (len (ts_payload s) + 20) ++ tcp_ser (ts_tcp s) ++ ts_payload s) _ S).
-  - rewrite wsum_pseudo by lia. rewrite wsum_tcp_ser by (try exact Hw; rewrite Hc0; lia). unfold S. lia.
-  - unfold S. lia.
-  - rewrite len_app. change (len (tcp_ser _)) with 20.
+  assert (Ec : c = csum_fold (sumN' (map red [A; B; C]))) by (unfold c; cbn [map sumN']; f_equal; lia).
+  assert (Hcf : c < 65536) by (unfold c; apply csum_fold_lt; lia).
+  assert (W : wsum (pseudo_hdr (ip_src (ts_ip s)) (ip_dst (ts_ip s)) 6 (len (tcp_ser (th_set_csum (ts_tcp s) c) ++ ts_payload s))
+                    ++ tcp_ser (th_set_csum (ts_tcp s) c) ++ ts_payload s) = sumN' [A; B; C] + c).
+  { rewrite len_app. change (len (tcp_ser _)) with 20.
     replace (20 + len (ts_payload s)) with (len (ts_payload s) + 20) by lia.
     rewrite wsum_pseudo by lia.
-    assert (Hcf : csum_fold S < 65536) by (apply csum_fold_lt; unfold S; lia).
     rewrite wsum_tcp_ser.
-    + unfold tcp_words. cbn [th_set_csum th_sport th_dport th_seq th_ack th_flags th_win th_csum th_urp].
-      unfold S, tcp_words. rewrite Hc0. lia.
-    + destruct Hw as (H1 & H2 & H3 & H4 & H5 & H6 & H7). unfold th_wf. cbn. tauto.
-    + cbn [th_csum th_set_csum]. exact Hcf.
+    - unfold tcp_words. cbn [th_set_csum th_sport th_dport th_seq th_ack th_flags th_win th_csum th_urp].
+      cbn [sumN']. unfold A, B, C, tcp_words. rewrite Hc0. lia.
+    - destruct Hw as (H1 & H2 & H3 & H4 & H5 & H6 & H7). unfold th_wf. cbn. tauto.
+    - cbn [th_csum th_set_csum]. exact Hcf. }
+  destruct (csum_parts_verify [A; B; C] _ ltac:(repeat constructor; lia) ltac:(cbn; lia)
+              ltac:(rewrite <- Ec; exact W) ltac:(rewrite W; cbn [sumN']; lia)) as (V & _).
+  exact V.
 Qed.
 
 (* ---- every segment the flow checksums is well-formed ---- *)
@@ -206,38 +211,71 @@ Proof.
   - destruct (flow_sv_twf f Hf) as (A & B). apply K; assumption.
 Qed.
 
-Lemma three_good (c1 c2 c3 : bool) mk1 mk2 mk3 f f' ps :
+Definition is_tx (tx : tcp_flow -> tcp_seg -> outcome (tcp_flow * packet)) : Prop :=
+  forall f s f' p, flow_twf f -> seg_twf s -> tx f s = Ok (f', p) -> tcp_good p /\ flow_twf f'.
+
+Lemma cl_tx_is_tx : is_tx flow_cl_tx.
+Proof. intros f s f' p Hf Hs E. exact (flow_tx_good true f s f' p Hf Hs E). Qed.
+Lemma sv_tx_is_tx : is_tx flow_sv_tx.
+Proof. intros f s f' p Hf Hs E. exact (flow_tx_good false f s f' p Hf Hs E). Qed.
+
+Lemma three_good tx1 tx2 tx3 mk1 mk2 mk3 f f' ps :
+  is_tx tx1 -> is_tx tx2 -> is_tx tx3 ->
   mk_ok mk1 -> mk_ok mk2 -> mk_ok mk3 -> flow_twf f ->
-  (do (f1, p1) <- (if c1 then flow_cl_tx f (mk1 f) else flow_sv_tx f (mk1 f));
-   do (f2, p2) <- (if c2 then flow_cl_tx f1 (mk2 f1) else flow_sv_tx f1 (mk2 f1));
-   do (f3, p3) <- (if c3 then flow_cl_tx f2 (mk3 f2) else flow_sv_tx f2 (mk3 f2));
+  (do (f1, p1) <- tx1 f (mk1 f);
+   do (f2, p2) <- tx2 f1 (mk2 f1);
+   do (f3, p3) <- tx3 f2 (mk3 f2);
    Ok (f3, [p1; p2; p3])) = Ok (f', ps) ->
   Forall tcp_good ps /\ flow_twf f'.
 Proof.
-  intros M1 M2 M3 Hf.
-  destruct (if c1 then flow_cl_tx f (mk1 f) else flow_sv_tx f (mk1 f)) as [[f1 p1]| | |] eqn:E1; cbn [obind]; try discriminate.
-  destruct (flow_tx_good c1 _ _ _ _ Hf (M1 _ Hf) E1) as (P1 & W1).
-  destruct (if c2 then flow_cl_tx f1 (mk2 f1) else flow_sv_tx f1 (mk2 f1)) as [[f2 p2]| | |] eqn:E2; cbn [obind]; try discriminate.
-  destruct (flow_tx_good c2 _ _ _ _ W1 (M2 _ W1) E2) as (P2 & W2).
-  destruct (if c3 then flow_cl_tx f2 (mk3 f2) else flow_sv_tx f2 (mk3 f2)) as [[f3 p3]| | |] eqn:E3; cbn [obind]; try discriminate.
-  destruct (flow_tx_good c3 _ _ _ _ W2 (M3 _ W2) E3) as (P3 & W3).
+  intros T1 T2 T3 M1 M2 M3 Hf.
+  destruct (tx1 f (mk1 f)) as [[f1 p1]| | |] eqn:E1; cbn [obind]; try discriminate.
+  destruct (T1 _ _ _ _ Hf (M1 _ Hf) E1) as (P1 & W1).
+  destruct (tx2 f1 (mk2 f1)) as [[f2 p2]| | |] eqn:E2; cbn [obind]; try discriminate.
+  destruct (T2 _ _ _ _ W1 (M2 _ W1) E2) as (P2 & W2).
+  destruct (tx3 f2 (mk3 f2)) as [[f3 p3]| | |] eqn:E3; cbn [obind]; try discriminate.
+  destruct (T3 _ _ _ _ W2 (M3 _ W2) E3) as (P3 & W3).
   intros E. ok_inv E. split; [repeat constructor; assumption|exact W3].
 Qed.
 
 Theorem flow_open_good f f' ps : flow_twf f -> flow_open f = Ok (f', ps) -> Forall tcp_good ps /\ flow_twf f'.
 Proof.
-  intros Hf E. apply (three_good true false true (fun f => seg_syn (flow_cl f)) (fun f => seg_syn_ack (flow_sv f)) (fun f => seg_ack (flow_cl f)) f); try exact Hf; try exact E.
-  - exact (mk_flag true _ seg_syn_twf). - exact (mk_flag false _ seg_syn_ack_twf). - exact (mk_flag true _ seg_ack_twf).
+  intros Hf. unfold flow_open.
+  pose proof (mk_flag true _ seg_syn_twf) as M1. pose proof (mk_flag false _ seg_syn_ack_twf) as M2.
+  pose proof (mk_flag true _ seg_ack_twf) as M3. unfold mk_ok in M1, M2, M3.
+  destruct (flow_cl_tx f (seg_syn (flow_cl f))) as [[f1 p1]| | |] eqn:E1; cbn [obind]; try discriminate.
+  destruct (cl_tx_is_tx _ _ _ _ Hf (M1 _ Hf) E1) as (P1 & W1).
+  destruct (flow_sv_tx f1 (seg_syn_ack (flow_sv f1))) as [[f2 p2]| | |] eqn:E2; cbn [obind]; try discriminate.
+  destruct (sv_tx_is_tx _ _ _ _ W1 (M2 _ W1) E2) as (P2 & W2).
+  destruct (flow_cl_tx f2 (seg_ack (flow_cl f2))) as [[f3 p3]| | |] eqn:E3; cbn [obind]; try discriminate.
+  destruct (cl_tx_is_tx _ _ _ _ W2 (M3 _ W2) E3) as (P3 & W3).
+  intros E. ok_inv E. split; [repeat constructor; assumption|exact W3].
 Qed.
 Theorem flow_client_close_good f f' ps : flow_twf f -> flow_client_close f = Ok (f', ps) -> Forall tcp_good ps /\ flow_twf f'.
 Proof.
-  intros Hf E. apply (three_good true false true (fun f => seg_fin_ack (flow_cl f)) (fun f => seg_fin_ack (flow_sv f)) (fun f => seg_ack (flow_cl f)) f); try exact Hf; try exact E.
-  - exact (mk_flag true _ seg_fin_ack_twf). - exact (mk_flag false _ seg_fin_ack_twf). - exact (mk_flag true _ seg_ack_twf).
+  intros Hf. unfold flow_client_close.
+  pose proof (mk_flag true _ seg_fin_ack_twf) as M1. pose proof (mk_flag false _ seg_fin_ack_twf) as M2.
+  pose proof (mk_flag true _ seg_ack_twf) as M3. unfold mk_ok in M1, M2, M3.
+  destruct (flow_cl_tx f (seg_fin_ack (flow_cl f))) as [[f1 p1]| | |] eqn:E1; cbn [obind]; try discriminate.
+  destruct (cl_tx_is_tx _ _ _ _ Hf (M1 _ Hf) E1) as (P1 & W1).
+  destruct (flow_sv_tx f1 (seg_fin_ack (flow_sv f1))) as [[f2 p2]| | |] eqn:E2; cbn [obind]; try discriminate.
+  destruct (sv_tx_is_tx _ _ _ _ W1 (M2 _ W1) E2) as (P2 & W2).
+  destruct (flow_cl_tx f2 (seg_ack (flow_cl f2))) as [[f3 p3]| | |] eqn:E3; cbn [obind]; try discriminate.
+  destruct (cl_tx_is_tx _ _ _ _ W2 (M3 _ W2) E3) as (P3 & W3).
+  intros E. ok_inv E. split; [repeat constructor; assumption|exact W3].
 Qed.
 Theorem flow_server_close_good f f' ps : flow_twf f -> flow_server_close f = Ok (f', ps) -> Forall tcp_good ps /\ flow_twf f'.
 Proof.
-  intros Hf E. apply (three_good false true false (fun f => seg_fin_ack (flow_sv f)) (fun f => seg_fin_ack (flow_cl f)) (fun f => seg_ack (flow_sv f)) f); try exact Hf; try exact E.
-  - exact (mk_flag false _ seg_fin_ack_twf). - exact (mk_flag true _ seg_fin_ack_twf). - exact (mk_flag false _ seg_ack_twf).
+  intros Hf. unfold flow_server_close.
+  pose proof (mk_flag false _ seg_fin_ack_twf) as M1. pose proof (mk_flag true _ seg_fin_ack_twf) as M2.
+  pose proof (mk_flag false _ seg_ack_twf) as M3. unfold mk_ok in M1, M2, M3.
+  destruct (flow_sv_tx f (seg_fin_ack (flow_sv f))) as [[f1 p1]| | |] eqn:E1; cbn [obind]; try discriminate.
+  destruct (sv_tx_is_tx _ _ _ _ Hf (M1 _ Hf) E1) as (P1 & W1).
+  destruct (flow_cl_tx f1 (seg_fin_ack (flow_cl f1))) as [[f2 p2]| | |] eqn:E2; cbn [obind]; try discriminate.
+  destruct (cl_tx_is_tx _ _ _ _ W1 (M2 _ W1) E2) as (P2 & W2).
+  destruct (flow_sv_tx f2 (seg_ack (flow_sv f2))) as [[f3 p3]| | |] eqn:E3; cbn [obind]; try discriminate.
+  destruct (sv_tx_is_tx _ _ _ _ W2 (M3 _ W2) E3) as (P3 & W3).
+  intros E. ok_inv E. split; [repeat constructor; assumption|exact W3].
 Qed.
 
 Lemma flow_seg_twf (client : bool) f b off s :
@@ -364,37 +402,48 @@ Proof.
   intros (Hfr & _ & _ & Hl) Hw Hc0 Hp Hfit Hpr. unfold udp_csum.
   pose proof (ip_fresh_wf _ Hfr) as Wip. destruct Wip as (_ & _ & _ & _ & _ & Hs & Hd).
   unfold wrap16. rewrite (N.mod_small (8 + len (ud_payload d))) by lia. rewrite Hpr.
-  change csum_partial with wsum. rewrite pseudo_same.
+  rewrite !csum_partial_red. rewrite pseudo_same.
   rewrite <- (app_nil_r (pseudo_hdr _ _ _ _)), wsum_pseudo by lia.
   rewrite <- (app_nil_r (udp_ser _)), wsum_udp_ser by (try exact Hw; rewrite Hc0; lia).
   cbn [wsum]. rewrite !N.add_0_r.
   pose proof (wsum_bound_len _ Hp ltac:(lia)) as Bp.
-  assert (Bph : pseudo_words (ip_src (ud_ip d)) (ip_dst (ud_ip d)) 17 (8 + len (ud_payload d)) <= 6 * 65535)
-    by (unfold pseudo_words; lia).
-  assert (Bu : udp_words (ud_udp d) <= 4 * 65535).
-  { destruct Hw as (H1 & H2 & H3). unfold udp_words. rewrite Hc0. lia. }
+  set (A := pseudo_words (ip_src (ud_ip d)) (ip_dst (ud_ip d)) 17 (8 + len (ud_payload d))).
+  set (B := udp_words (ud_udp d)). set (C := wsum (ud_payload d)) in *.
+  assert (Bph : A <= 6 * 65535) by (unfold A, pseudo_words; lia).
+  assert (Bu : B <= 4 * 65535).
+  { destruct Hw as (H1 & H2 & H3). unfold B, udp_words. rewrite Hc0. lia. }
+  pose proof (red_bound A ltac:(lia)) as RA. pose proof (red_bound B ltac:(lia)) as RB. pose proof (red_bound C ltac:(lia)) as RC.
   unfold cadd, two32.
-  destruct (_ + _ <? 4294967296) eqn:E1; [|lia]. cbn [obind].
-  destruct (_ + _ + _ <? 4294967296) eqn:E2; [|lia]. cbn [obind].
+  destruct (red A + red B <? 4294967296) eqn:E1; [|lia]. cbn [obind].
+  destruct (red A + red B + red C <? 4294967296) eqn:E2; [|lia]. cbn [obind].
   intros E. apply Ok_inj in E. subst d'.
   cbn [ud_ip ud_with_udp ud_payload]. split; [|reflexivity].
-  set (S := pseudo_words (ip_src (ud_ip d)) (ip_dst (ud_ip d)) 17 (8 + len (ud_payload d)) + udp_words (ud_udp d) + wsum (ud_payload d)).
-  set (c := if csum_fold S =? 0 then 65535 else csum_fold S).
-  assert (HS : S < 4294901760) by (unfold S; lia).
-  destruct (csum_fold_spec S ltac:(lia)) as (r & Hr & Hf & Hz & Hm).
-  assert (Hc : 0 < c /\ c < 65536 /\ (S + c) mod 65535 = 0).
-  { unfold c. destruct (csum_fold S =? 0) eqn:Ez.
-    - assert (r = 65535) by lia. subst r. lia.
-    - rewrite Hf. lia. }
+  destruct (sum_red_mod [A; B; C] ltac:(repeat constructor; lia)) as (M1 & M2 & M3).
+  cbn [map sumN' length] in M1, M2, M3.
+  set (R := red A + red B + red C) in *.
+  assert (M1' : R mod 65535 = (A + B + C) mod 65535) by (unfold R; lia).
+  clear M1 M2.
+  set (c := if csum_fold R =? 0 then 65535 else csum_fold R).
+  assert (HR : R < 4294901760) by (unfold R; lia).
+  destruct (csum_fold_spec R ltac:(lia)) as (r & Hr & Hf & Hz & Hm).
+  assert (Hc : 0 < c /\ c < 65536 /\ (A + B + C + c) mod 65535 = 0).
+  { unfold c. destruct (csum_fold R =? 0) eqn:Ez.
+    - assert (r = 65535) by lia. subst r. clear Hz Hf Ez. split; [lia|split; [lia|]]. lia.
+    - rewrite Hf. split; [lia|split; [lia|]]. clear Hz Ez. lia. }
   destruct Hc as (Hcpos & Hclt & Hcmod).
   unfold udp_csum_ok, udp_l4_bytes. cbn [ud_udp ud_with_udp ud_payload].
   apply andb_true_intro. split.
   - unfold udp_ser. cbn [uh_sport uh_dport uh_len uh_csum]. rewrite <- !app_assoc.
     rewrite u16_at_be16_6 by exact Hclt. apply negb_true_iff. apply N.eqb_neq. lia.
   - rewrite len_app. change (len (udp_ser _)) with 8.
-    apply verifies_of_sum; rewrite wsum_pseudo by lia; rewrite wsum_udp_ser;
-      try (destruct Hw as (H1 & H2 & H3); unfold uh_wf; cbn; tauto); try (cbn; exact Hclt);
-      unfold udp_words; cbn [uh_sport uh_dport uh_len uh_csum]; fold c; unfold S, udp_words in *; rewrite Hc0 in *; lia.
+    assert (W : wsum (pseudo_hdr (ip_src (ud_ip d)) (ip_dst (ud_ip d)) 17 (8 + len (ud_payload d))
+                 ++ udp_ser {| uh_sport := uh_sport (ud_udp d); uh_dport := uh_dport (ud_udp d); uh_len := uh_len (ud_udp d); uh_csum := c |}
+                 ++ ud_payload d) = A + B + C + c).
+    { rewrite wsum_pseudo by lia. rewrite wsum_udp_ser.
+      - unfold udp_words. cbn [uh_sport uh_dport uh_len uh_csum]. unfold A, B, C, udp_words. rewrite Hc0. lia.
+      - destruct Hw as (H1 & H2 & H3). unfold uh_wf. cbn. tauto.
+      - cbn. exact Hclt. }
+    apply verifies_of_sum; rewrite W; lia.
 Qed.
 
 (* ---------------- ICMP ---------------- *)
@@ -424,12 +473,16 @@ Proof.
                = typ * 256 + id + seq + wsum b).
   { unfold icmp_ser. cbn [ic_typ ic_code ic_csum ic_id ic_seq]. rewrite <- !app_assoc. cbn [app].
     rewrite wsum_cons2'. rewrite !wsum_be16 by lia. lia. }
-  eapply (csum_set_then_verify _ _ (typ * 256 + id + seq + wsum b)); [exact W0|lia|].
-  assert (Hc : c < 65536).
-  { unfold c, ip_checksum. change csum_partial with wsum. rewrite W0. apply csum_fold_lt. lia. }
-  unfold icmp_ser. cbn [ic_typ ic_code ic_csum ic_id ic_seq]. rewrite <- !app_assoc. cbn [app].
-  rewrite wsum_cons2'. rewrite !wsum_be16 by lia.
-  unfold c, ip_checksum. change csum_partial with wsum. rewrite W0. lia.
+  set (S0 := typ * 256 + id + seq + wsum b) in *.
+  assert (Ec : c = csum_fold (sumN' (map red [S0]))).
+  { unfold c, ip_checksum. rewrite csum_partial_red, W0. cbn [map sumN']. rewrite N.add_0_r. reflexivity. }
+  assert (Hc : c < 65536) by (rewrite Ec; apply csum_fold_lt; cbn [map sumN']; pose proof (red_bound S0 ltac:(unfold S0; lia)); lia).
+  assert (W : wsum (icmp_ser {| ic_typ := typ; ic_code := 0; ic_csum := c; ic_id := id; ic_seq := seq |} ++ b) = sumN' [S0] + c).
+  { unfold icmp_ser. cbn [ic_typ ic_code ic_csum ic_id ic_seq]. rewrite <- !app_assoc. cbn [app].
+    rewrite wsum_cons2'. rewrite !wsum_be16 by lia. cbn [sumN']. unfold S0. lia. }
+  destruct (csum_parts_verify [S0] _ ltac:(repeat constructor; unfold S0; lia) ltac:(cbn; lia)
+              ltac:(rewrite <- Ec; exact W) ltac:(rewrite W; cbn [sumN']; unfold S0; lia)) as (V & _).
+  exact V.
 Qed.
 
 (** echo histories: the n-th request carries n-1, the n-th reply n-1, one identifier per flow *)
